@@ -541,3 +541,31 @@ func (e *Engine) enumTableSplit(st *State, x *ssa.UnOp) []*State {
 	}
 	return outs
 }
+
+// writesFields: fn (or a module function it calls) stores into a field of a module struct.
+func (e *Engine) writesFields(fn *ssa.Function) bool {
+	if v, ok := e.writes[fn]; ok {
+		return v
+	}
+	if e.writes == nil {
+		e.writes = map[*ssa.Function]bool{}
+	}
+	e.writes[fn] = false
+	res := false
+	for _, b := range fn.Blocks {
+		for _, in := range b.Instrs {
+			switch x := in.(type) {
+			case *ssa.Store:
+				if _, ok := heapPath(x.Addr); ok {
+					res = true
+				}
+			case *ssa.Call:
+				if g := x.Call.StaticCallee(); g != nil && len(g.Blocks) > 0 && fnPkg(g) != nil && core.InModule(fnPkg(g)) && e.owner(g) && e.writesFields(g) {
+					res = true
+				}
+			}
+		}
+	}
+	e.writes[fn] = res
+	return res
+}
